@@ -467,7 +467,7 @@ def search_witness(repo, contract, seed, budget=20, all_witnesses=False):
     if b is None:
         return dict(error="replay crate does not build against this tree: " + (err or ""))
     env = dict(os.environ)
-    if contract.startswith("run_") or contract.startswith("cli") or contract.endswith("sync_files") or contract in ("bisync", "bisync_crash", "serve_crash", "hub_sync", "second_run", "delivers_plan", "dry_run", "apply", "copy_atomic", "serve", "safe_join", "tmp_of", "read_frame", "write_frame", "read_magic", "oneway", "tmp_path", "create_local_dirs") or contract.startswith("Archive::") or contract.startswith("handle_") or contract.startswith("deliver_") or contract.startswith("transfer_file_"):
+    if contract.startswith("run_") or contract.startswith("cli") or contract.endswith("sync_files") or contract.endswith("split_target") or contract.endswith("FileLocation::parse") or contract in ("bisync", "bisync_crash", "serve_crash", "hub_sync", "second_run", "delivers_plan", "dry_run", "apply", "copy_atomic", "serve", "safe_join", "tmp_of", "read_frame", "write_frame", "read_magic", "oneway", "tmp_path", "create_local_dirs") or contract.startswith("Archive::") or contract.startswith("handle_") or contract.startswith("deliver_") or contract.startswith("transfer_file_"):
         cb = cli_bin(repo)
         if cb is None:
             return dict(error="the CLI of this tree does not build")
